@@ -114,6 +114,10 @@ func (pp *PathParams) loadAndParsePathParamsFiles() error {
 
 func (pp *PathParams) storePathParams(pathParams []*PathParam) error {
 	for _, pathParam := range pathParams {
+		if pathParam == nil {
+			// an empty list entry (`path_params:\n  -`) decodes to a nil pointer
+			return fmt.Errorf("path param entry is empty")
+		}
 		err := pp.addURLToTree(pathParam.URL)
 		if err != nil {
 			return err
